@@ -25,7 +25,8 @@ def cellDescentFrames : Nat := 3
 def rightMostDescentFrames : Nat := 1
 
 /-- `BTreePage.__init__` for the class `cls` on page `number`, including the recursive
-construction of children.  Result: the page followed by its descendants in the order of
+construction of children, *as it was before a page reached twice was refused* (kept as the
+mathematical reference; the repaired code is `parseBTreeLog` / `parseBTreeW` below).  Result: the page followed by its descendants in the order of
 `get_pages_from_b_tree_page` (page, right-most subtree, then each cell's left subtree);
 overflow pages are carried inside the cells. -/
 def parseBTree (v : VersionIf) : Nat → Nat → PageType → Py (List BPage)
@@ -87,11 +88,138 @@ def parseBTree (v : VersionIf) : Nat → Nat → PageType → Py (List BPage)
             | none => .error .parseError
       else pure [me]
 
-/-- `Version.get_b_tree_root_page` without a page cache -/
+/-! ### The walk that refuses a page reached twice
+
+`Version.get_b_tree_root_page` creates an empty set `_b_tree_pages_being_built` for the walk;
+`BTreePage.__init__`, right after `Page.__init__` (page version and page offset looked up), raises
+`BTreePageParsingError` if its page number is already in the set and adds it otherwise.  The set is
+an attribute of the version object: it is shared by the whole recursive walk and it keeps what was
+added to it when an exception propagates (it is discarded only when `get_b_tree_root_page` returns
+or raises). -/
+
+/-- A Python computation that reads and extends the set of page numbers of the walk
+(`Version._b_tree_pages_being_built`, most recently added first): given the set it returns the
+set afterwards — *also when it raises* — and the result. -/
+def Walk (α : Type) : Type := List Nat → List Nat × Py α
+
+namespace Walk
+
+@[inline] protected def pure {α : Type} (a : α) : Walk α := fun s => (s, .ok a)
+
+/-- sequencing: an exception of the first part propagates, with the set as that part left it -/
+@[inline] protected def bind {α β : Type} (x : Walk α) (f : α → Walk β) : Walk β := fun s =>
+  match x s with
+  | (s', .ok a) => f a s'
+  | (s', .error e) => (s', .error e)
+
+instance : Monad Walk where
+  pure := Walk.pure
+  bind := Walk.bind
+
+/-- a computation that does not touch the set -/
+@[inline] def lift {α : Type} (x : Py α) : Walk α := fun s => (s, x)
+
+/-- the check added to `BTreePage.__init__`: `if number in pages_being_built: raise
+BTreePageParsingError(...)`, else `pages_being_built.add(number)` -/
+def enter (number : Nat) : Walk Unit := fun s =>
+  if s.contains number then (s, .error .parseError) else (number :: s, .ok ())
+
+end Walk
+
+/-- `BTreePage.__init__` of the repaired code: the body of `parseBTree` with the check
+`Walk.enter` after `Page.__init__`, all recursive constructions sharing the set of the walk (a
+cell's left child is constructed inside the cell loop, the right-most child last).  Applied to
+the set `seen` it returns the set afterwards — the *log* of the page constructions that got past
+the check, whether or not the walk succeeded — and the result. -/
+def parseBTreeLog (v : VersionIf) : Nat → Nat → PageType → Walk (List BPage)
+  | 0, _, _ => Walk.lift (.error .recursionError)
+  | fuel+1, number, cls => do
+    -- Page.__init__
+    let pv ← Walk.lift (v.pageVersion number)
+    let off ← Walk.lift (v.pageOffset number)
+    -- the repair
+    Walk.enter number
+    let page ← Walk.lift (v.getData number 0 none)
+    let ptype ← Walk.lift (btreePageType page)
+    let hdr ← Walk.lift (parsePageHdr page cls.isInterior)
+    let ptrOff := hdr.headerLength + (if hdr.containsDbHeader then Generated.SQLITE_DATABASE_HEADER_LENGTH else 0)
+    if hdr.containsDbHeader ∧ number ≠ Generated.SQLITE_MASTER_SCHEMA_ROOT_PAGE then Walk.lift (.error .parseError)
+    else
+      let ptrLen := hdr.nCells * Generated.CELL_POINTER_BYTE_LENGTH
+      let unallocStart := ptrOff + ptrLen
+      let unallocEnd := hdr.cellContentOffset
+      let kind := cellKindOf cls
+      let step := fun (st : List Cell × List (List BPage) × Int) (idx : Nat) => do
+        let (cells, subs, total) := st
+        let cellOff ← Walk.lift (unpackAt page (ptrOff + idx * Generated.CELL_POINTER_BYTE_LENGTH) Generated.CELL_POINTER_BYTE_LENGTH)
+        let c ← Walk.lift (parseCellLocal v kind page idx cellOff)
+        let sub ← (match c.leftChild with
+          | some lc => do
+            let fb ← Walk.lift (v.getData lc 0 (some Generated.PAGE_TYPE_LENGTH))
+            match childClass cls.isTable fb with
+            | some ccls =>
+              if fuel < cellDescentFrames then (Walk.lift (.error .recursionError) : Walk (List BPage))
+              else parseBTreeLog v (fuel - cellDescentFrames) lc ccls
+            | none => Walk.lift (.error .parseError)
+          | none => pure [])
+        let sz : Int := if kind ≠ .tableInterior ∧ c.hasOverflow then c.end_ - c.start
+                        else max c.byteSize (Generated.MINIMUM_CELL_ALLOCATION_SIZE : Int)
+        pure (cells ++ [c], subs ++ [sub], total + sz)
+      let (cells, subs, cellTotal) ← (List.range hdr.nCells).foldlM step ([], [], 0)
+      let fbs ← Walk.lift (if hdr.firstFreeblock ≠ 0 then freeblockWalk page 65537 0 hdr.firstFreeblock [] else pure [])
+      let fbTotal : Int := (fbs.map fun f => (f.byteSize : Int)).foldl (· + ·) 0
+      let regions : List Region := (cells.map fun c => ((c.start : Int), max c.end_ ((c.start : Int) + Generated.MINIMUM_CELL_ALLOCATION_SIZE))) ++ (fbs.map fun f => ((f.start : Int), (f.end_ : Int)))
+      let lay ← Walk.lift (layoutCheck v.strict v.pageSize unallocStart unallocEnd hdr.fragBytes regions cellTotal fbTotal)
+      let me : BPage := { number, ptype, hdr, pageVersion := pv, offset := off, unallocStart, unallocEnd,
+                          cells, freeblocks := fbs, fragments := lay.fragments,
+                          rootOnly := if hdr.containsDbHeader then (page.slice Generated.SQLITE_DATABASE_HEADER_LENGTH page.size).toList else [] }
+      if cls.isInterior then
+        match hdr.rightMost with
+        | none => Walk.lift (.error .attributeError)
+        | some rm =>
+          if rm = 0 then Walk.lift (.error .parseError)
+          else do
+            let fb ← Walk.lift (v.getData rm 0 (some Generated.PAGE_TYPE_LENGTH))
+            match childClass cls.isTable fb with
+            | some ccls =>
+              if fuel < rightMostDescentFrames then Walk.lift (.error .recursionError)
+              else do
+                let rsub ← parseBTreeLog v (fuel - rightMostDescentFrames) rm ccls
+                pure (me :: rsub ++ subs.flatten)
+            | none => Walk.lift (.error .parseError)
+      else pure [me]
+
+/-- `BTreePage.__init__` of the repaired code when the pages `seen` were already constructed in
+this walk: `parseBTreeLog` with the log erased -/
+def parseBTreeW (v : VersionIf) (fuel number : Nat) (cls : PageType) (seen : List Nat) : Py (List BPage) :=
+  (parseBTreeLog v fuel number cls seen).2
+
+/-- `Version.get_b_tree_root_page` without a page cache (the repaired code: the walk starts with
+an empty set) -/
 def getBTreeRoot (v : VersionIf) (frames : Nat) (number : Nat) : Py (List BPage) := do
   let t ← v.getData number 0 (some Generated.PAGE_TYPE_LENGTH)
   let t ← (if t.size = 1 ∧ t.rd 0 = 0x53 then do
       -- the two log messages below are built with too few arguments: IndexError from str.format
+      if number ≠ Generated.SQLITE_MASTER_SCHEMA_ROOT_PAGE then (.error .indexError : Py Buf)
+      else
+        let t2 ← v.getData number Generated.SQLITE_DATABASE_HEADER_LENGTH (some Generated.PAGE_TYPE_LENGTH)
+        if t2.size = 1 ∧ (t2.rd 0 = 0x05 ∨ t2.rd 0 = 0x0d) then pure t2 else .error .parseError
+    else pure t)
+  if t.size ≠ 1 then .error .indexError
+  else
+    let b := t.rd 0
+    if b = 0x05 then parseBTreeW v frames number .tableInterior []
+    else if b = 0x0d then parseBTreeW v frames number .tableLeaf []
+    else if b = 0x02 then parseBTreeW v frames number .indexInterior []
+    else if b = 0x0a then parseBTreeW v frames number .indexLeaf []
+    else .error .indexError
+
+/-- `Version.get_b_tree_root_page` of the code before the repair (no set: a page reached twice is
+constructed twice).  The mathematical reference: `getBTreeRoot` succeeds exactly when this does
+and the page numbers of the result are pairwise distinct (Proofs/TreeWalk.lean). -/
+def getBTreeRootPure (v : VersionIf) (frames : Nat) (number : Nat) : Py (List BPage) := do
+  let t ← v.getData number 0 (some Generated.PAGE_TYPE_LENGTH)
+  let t ← (if t.size = 1 ∧ t.rd 0 = 0x53 then do
       if number ≠ Generated.SQLITE_MASTER_SCHEMA_ROOT_PAGE then (.error .indexError : Py Buf)
       else
         let t2 ← v.getData number Generated.SQLITE_DATABASE_HEADER_LENGTH (some Generated.PAGE_TYPE_LENGTH)
